@@ -61,8 +61,13 @@ def run(ctx):
     S3 = rep.rule('C07.R4', 'one writer (shared with C07)', floor=1)
     S1 = rep.rule('C09.R3', 'the dependency graph is updated exactly on a successful reload (shared with C09, C05)', floor=2)
     S4 = rep.rule('C18.R3', 'a watcher decides and remembers with ONE snapshot of the reload id: reloaded() = last_reload_id.update(reload_id.load()) -- a second load between the answer and the update loses the rewrite that lands in between (shared with C18, watcher clause)', floor=1)
+    S5 = rep.rule('C09.R1', 'what a load reads inside no_record is not recorded, so its change rewrites nothing: the recording guard of record / no_record lives across the user closure (shared with C09)', floor=5)
     for cfg, F in ctx.cfgs():
         hr = 'hot-reloading' in ctx.cfg_features[cfg]
+        if hr:
+            from c09 import r1 as recording_scopes
+            recording_scopes(S5, cfg, F)
+            S5.finish_cfg(cfg)
         r4(R4, cfg, F, hr)
         R4.finish_cfg(cfg)
         if not hr:
